@@ -333,7 +333,10 @@ def gen_child_caps(r, tbl, allow_odd=True, known_writecap_in_ro_slot=False):
 
 def gen_outside_caps(r, tbl):
     """Caps outside the round-trip well-formedness: trailing spaces, nested or bare alleged prefixes."""
-    c = tbl.add(gen_other(r))
+    c = gen_other(r)
+    while c.label == "verify-cap":        # a verify cap followed by a space is a malformed known cap, not an unknown one
+        c = gen_other(r)
+    tbl.add(c)
     kind = r.choice(["trailing-space", "nested-prefix", "bare-prefix", "space-only"])
     if kind == "trailing-space":
         return r.choice([(None, c.s + b" "), (None, RO + c.s + b"  "), (c.s + b" ", c.s)]) + ("outside:trailing-space",)
